@@ -62,6 +62,11 @@ def classify_downlink(b):
 
 def make_garbage(kind, genuine):
     """bytes that are not a decodable NGAP PDU: fixed octets, or a truncation of the genuine answer"""
+    if kind == "fill":
+        # undecodable octets that fill a 2048-octet receive buffer exactly / overflow it
+        return b"\xff\xfe\xfd\xfc" * 512
+    if kind == "over":
+        return b"\xff\xfe\xfd\xfc" * 750
     if kind == "ff" or not genuine:
         return GARBAGE
     import perdec
